@@ -33,9 +33,21 @@ def apply(root, mut):
         if len(hits) != 1:
             raise RuntimeError("mutant %s: %d commits match %r" % (mut["id"], len(hits), mut["revert"]))
         diff = subprocess.run(["git", "-C", "/repo", "show", "--format=", hits[0], "--", "basic_robotics"], capture_output=True, text=True).stdout
-        r = subprocess.run(["patch", "-R", "-p1", "-s", "-d", root], input=diff, text=True, capture_output=True)
+        r = subprocess.run(["patch", "-R", "-p1", "-s", "--no-backup-if-mismatch", "-d", root], input=diff, text=True, capture_output=True)
         if r.returncode != 0:
-            raise RuntimeError("mutant %s: reverse patch failed: %s" % (mut["id"], r.stdout + r.stderr))
+            # later fixes touch the same lines: let git do a three-way revert in a throw-away worktree and copy the result
+            wt = tempfile.mkdtemp(prefix="vmutwt_", dir="/dev/shm")
+            os.rmdir(wt)
+            try:
+                subprocess.run(["git", "-C", "/repo", "worktree", "add", "-q", "--detach", wt, "HEAD"], check=True, capture_output=True)
+                rr = subprocess.run(["git", "-C", wt, "revert", "--no-commit", hits[0]], capture_output=True, text=True)
+                if rr.returncode != 0:
+                    raise RuntimeError("mutant %s: cannot be re-introduced alone (later fixes changed the same lines): %s" % (mut["id"], rr.stderr[-200:]))
+                shutil.rmtree(os.path.join(root, "basic_robotics"))
+                shutil.copytree(os.path.join(wt, "basic_robotics"), os.path.join(root, "basic_robotics"), ignore=shutil.ignore_patterns("__pycache__"))
+            finally:
+                subprocess.run(["git", "-C", "/repo", "worktree", "remove", "--force", wt], capture_output=True)
+                subprocess.run(["git", "-C", "/repo", "worktree", "prune"], capture_output=True)
         return
     if "patch" in mut:
         r = subprocess.run(["patch", "-p1", "-s", "-d", root], input=open(mut["patch"]).read(), text=True, capture_output=True)
@@ -69,6 +81,7 @@ def main():
     ap.add_argument("--only", default="")
     ap.add_argument("--props", default="")
     ap.add_argument("--tier", default="quick")
+    ap.add_argument("--resume", action="store_true")
     ap.add_argument("--out", default=os.path.join(VERIF, "vmon", "selftest", "results.json"))
     a = ap.parse_args()
     only = set(x for x in a.only.split(",") if x)
@@ -83,9 +96,16 @@ def main():
         props = [p for p in mut["props"] if not pf or p in pf]
         if not props:
             continue
+        if a.resume and mut["id"] in results and not results[mut["id"]].get("skipped"):
+            continue
         root = make_copy()
         try:
-            apply(root, mut)
+            try:
+                apply(root, mut)
+            except RuntimeError as e:
+                print("%-28s SKIPPED %s" % (mut["id"], str(e)[:200]), flush=True)
+                results[mut["id"]] = {"desc": mut["desc"], "file": mut.get("file", mut.get("revert", mut.get("patch"))), "results": {}, "skipped": str(e)[:300]}
+                continue
             res = {}
             for p in props:
                 res[p] = run_check(p, root, a.tier)
